@@ -31,6 +31,7 @@ type Frame struct {
 	rundefers bool
 	pendingRet Value
 	hasRet  bool
+	mergeRoot bool // root frame of a pure-callee merge run: its return is collected, not continued
 }
 
 type Thr struct {
@@ -103,6 +104,7 @@ type Exec struct {
 	witness  map[string]*Model // reach label -> a model of one path reaching it
 	vcs      []vcRec
 	satVCs   map[string]int
+	mergeStack [][]mergeRet
 	deadline time.Time
 	timedOut bool
 	prog     *ssa.Program
@@ -180,6 +182,13 @@ func (st *State) clone() *State {
 	return n
 }
 
+var forkStats = func() map[string]int {
+	if os.Getenv("GOSYM_FORKS") != "" {
+		return map[string]int{}
+	}
+	return nil
+}()
+
 var slowMs = func() int { n := 0; fmt.Sscan(os.Getenv("GOSYM_SLOW"), &n); return n }()
 
 func max0(i int) int {
@@ -254,6 +263,10 @@ func (ex *Exec) fork(st *State, c *Term) (*State, *State) {
 	}
 	switch {
 	case ft && ff:
+		if forkStats != nil && len(st.frames) > 0 {
+			fr := st.top()
+			forkStats[fr.fn.String()+" @ "+ex.prog.Fset.Position(fr.block.Instrs[max0(fr.ip-1)].Pos()).String()]++
+		}
 		o := st.clone()
 		st.pc = append(st.pc, c)
 		o.pc = append(o.pc, Not(c))
@@ -727,7 +740,130 @@ func (ex *Exec) jump(st *State, fr *Frame, to *ssa.BasicBlock) bool {
 	return true
 }
 
+type mergeRet struct {
+	st  *State
+	val Value
+}
+
+var mergeSet = map[string]bool{
+	"(github.com/jech/storrent/bitmap.Bitmap).Get": true, "(github.com/jech/storrent/bitmap.Bitmap).Empty": true,
+	"(github.com/jech/storrent/bitmap.Bitmap).All": true, "(github.com/jech/storrent/bitmap.Bitmap).Count": true,
+	"(github.com/jech/storrent/bitmap.Bitmap).Len": true,
+	"(github.com/jech/storrent/hash.Hash).Equal": true,
+	"github.com/jech/storrent/peer.isFast": true, "github.com/jech/storrent/peer.chunkSize": true,
+	"github.com/jech/storrent/peer.fromChunk": true, "github.com/jech/storrent/peer.toChunk": true, "github.com/jech/storrent/peer.numPieces": true,
+	"(*github.com/jech/storrent/tor/piece.Pieces).PieceLength": true, "(*github.com/jech/storrent/tor/piece.Pieces).pieceChunks": true,
+	"(*github.com/jech/storrent/tor/piece.Piece).complete": true, "(*github.com/jech/storrent/tor/piece.Piece).busy": true,
+	"(*github.com/jech/storrent/tor/piece.Piece).busyOrComplete": true,
+	"(github.com/jech/storrent/peer/requests.Request).Cancelled": true,
+	"(github.com/jech/storrent/path.Path).Equal": true, "(github.com/jech/storrent/path.Path).Within": true, "(github.com/jech/storrent/path.Path).Compare": true,
+	"github.com/jech/storrent/pex.Find": true,
+}
+
+func scalarish(v Value) bool {
+	switch x := v.(type) {
+	case *Term:
+		return true
+	case TupleV:
+		for _, e := range x {
+			if !scalarish(e) {
+				return false
+			}
+		}
+		return true
+	}
+	return false
+}
+
+func mergeVals(c *Term, a, b Value) Value {
+	switch x := a.(type) {
+	case *Term:
+		return Ite(c, x, b.(*Term))
+	case TupleV:
+		out := make(TupleV, len(x))
+		for i := range x {
+			out[i] = mergeVals(c, x[i], b.(TupleV)[i])
+		}
+		return out
+	}
+	panic("mergeVals")
+}
+
+// callMerged runs a side-effect-free callee on all of its paths and folds the returned
+// scalars into one ite value, so that callers do not multiply. Returns handled=false when
+// the callee turned out not to be mergeable here (the caller then inlines it normally).
+func (ex *Exec) callMerged(st *State, f FuncV, args []Value, in *ssa.Call) (handled bool, cont bool) {
+	sub := st.clone()
+	base := len(sub.pc)
+	fr := &Frame{fn: f.Fn, env: map[ssa.Value]Value{}, block: f.Fn.Blocks[0], visits: map[int]int{}, mergeRoot: true}
+	for i, p := range f.Fn.Params {
+		fr.env[p] = args[i]
+	}
+	for i, fvv := range f.Fn.FreeVars {
+		fr.env[fvv] = f.Bound[i]
+	}
+	sub.frames = []*Frame{fr}
+	ex.funcs[f.Fn.String()] = true
+	savedWork := ex.work
+	ex.work = []*State{sub}
+	ex.mergeStack = append(ex.mergeStack, nil)
+	nOut := len(ex.outcomes)
+	for len(ex.work) > 0 {
+		s := ex.work[len(ex.work)-1]
+		ex.work = ex.work[:len(ex.work)-1]
+		ex.runState(s)
+	}
+	ex.work = savedWork
+	rets := ex.mergeStack[len(ex.mergeStack)-1]
+	ex.mergeStack = ex.mergeStack[:len(ex.mergeStack)-1]
+	ok := true
+	for _, r := range rets {
+		if !scalarish(r.val) || r.st.imprecise != st.imprecise {
+			ok = false
+			break
+		}
+		for k, o := range st.heap {
+			if r.st.heap[k] != o {
+				ok = false
+				break
+			}
+		}
+	}
+	if !ok {
+		// not pure here: forget the trial run (outcomes it recorded are re-found by inlining)
+		ex.outcomes = ex.outcomes[:nOut]
+		return false, false
+	}
+	if len(rets) == 0 {
+		return true, false
+	}
+	if len(rets) == 1 {
+		st.pc = append(st.pc, rets[0].st.pc[base:]...)
+		st.top().env[in] = rets[0].val
+		return true, true
+	}
+	var conds []*Term
+	for _, r := range rets {
+		conds = append(conds, And(r.st.pc[base:]...))
+	}
+	v := rets[len(rets)-1].val
+	for k := len(rets) - 2; k >= 0; k-- {
+		v = mergeVals(conds[k], rets[k].val, v)
+	}
+	if any := Or(conds...); !any.IsTrue() {
+		st.pc = append(st.pc, any)
+	}
+	st.top().env[in] = v
+	return true, true
+}
+
 func (ex *Exec) ret(st *State, fr *Frame, v Value) bool {
+	if fr.mergeRoot {
+		k := len(ex.mergeStack) - 1
+		ex.mergeStack[k] = append(ex.mergeStack[k], mergeRet{st, v})
+		st.frames = nil
+		return false
+	}
 	st.frames = st.frames[:len(st.frames)-1]
 	if len(st.frames) == 0 {
 		return true
@@ -1675,6 +1811,11 @@ func (ex *Exec) callValue(st *State, fv Value, args []Value, in *ssa.Call, pos t
 				ex.havocResult(st, in, name)
 			}
 			return true
+		}
+		if in != nil && mergeSet[name] && len(st.threads) == 1 && !ex.cfg.NoMerge {
+			if handled, cont := ex.callMerged(st, f, args, in); handled {
+				return cont
+			}
 		}
 		all := args
 		var callInstr ssa.Value
